@@ -222,6 +222,6 @@ def oracle_ddp(case: dict) -> Outcome:
 
 
 STREAMS = {
-    "compiled_vs_eager": Stream("compiled_vs_eager", oracle=oracle, strategy=strategy, quick=64, thorough=1500, shards_quick=16, shards_thorough=16),
-    "ddp_compiled": Stream("ddp_compiled", oracle=oracle_ddp, strategy=strategy_ddp, quick=32, thorough=600, shards_quick=16, shards_thorough=16),
+    "compiled_vs_eager": Stream("compiled_vs_eager", oracle=oracle, strategy=strategy, quick=64, thorough=600, shards_quick=16, shards_thorough=16),
+    "ddp_compiled": Stream("ddp_compiled", oracle=oracle_ddp, strategy=strategy_ddp, quick=32, thorough=240, shards_quick=16, shards_thorough=16),
 }
